@@ -344,7 +344,10 @@ PRESERVING = [('sort_inv', 'sample'), ('sort_inv', 'observation'), ('filter_all_
               ('filter_all_pred', 'observation', True), ('remove_empty', True), ('remove_empty', False),
               ('subsample_full',), ('TT',), ('copy',), ('rename_identity', 'sample'),
               ('rename_identity', 'observation'), ('nnz',), ('col',), ('row',), ('iter_s',), ('iter_o',),
-              ('pairwise',), ('eq',), ('desc',), ('sum',), ('reduce',), ('tsv',)]
+              ('pairwise',), ('eq',), ('desc',), ('sum',), ('reduce',), ('tsv',), ('tsv_md',), ('hdf5',),
+              ('dataframe',), ('minmax',)]
+READS = ('nnz', 'col', 'row', 'iter_s', 'iter_o', 'pairwise', 'eq', 'desc', 'sum', 'reduce', 'tsv', 'tsv_md',
+         'hdf5', 'dataframe', 'minmax')
 
 B_CONTENTS = {
     'c1': ([[1, 0, 2], [0, 3, 0], [2, 0, 1]], True),      # column sums equal -> subsample_full applies
@@ -365,6 +368,8 @@ def b_starts():
         N, Mm = D.shape
         oids, sids = OID[:N], SID[:Mm]
         omd = [{'k': 'v%d' % i} for i in range(N)] if md else None
+        if md and cname in ('c3', 'c6'):
+            omd[0]['taxonomy'] = ['a', 'b']       # ragged: the other observations lack the category
         smd = [{'g': 'w%d' % j} for j in range(Mm)] if md else None
         m = M(oids, sids, D.tolist(), omd, smd, 'OTU table')
         for rn in B_ROUTES:
@@ -438,6 +443,26 @@ def b_apply(op, t, m, strict=True):
     elif n == 'tsv':
         t.to_tsv()
         t.to_json('x')
+    elif n == 'tsv_md':
+        # exporting a category that some (here: all or all but one) observations lack
+        t.to_tsv(header_key='taxonomy', header_value='taxonomy', metadata_formatter=str)
+        t.to_tsv(header_key='k', header_value='k', metadata_formatter=str)
+    elif n == 'hdf5':
+        import h5py
+        with h5py.File('c16-mem-%d.h5' % id(t), 'w', driver='core', backing_store=False) as fh:
+            t.to_hdf5(fh, 'verif')
+    elif n == 'dataframe':
+        t.to_dataframe(dense=True)
+        if t.metadata(axis='observation') is not None:
+            t.metadata_to_dataframe('observation')
+    elif n == 'minmax':
+        if all(any(v != 0 for v in m.vec('sample', j)) for j in range(len(m.c))):
+            t.min('sample')
+            t.max('whole')
+        t.nonzero_counts('observation')
+        t.get_table_density()
+        str(t)
+        repr(t)
     else:
         raise KeyError(n)
     return OPS.Res(t, m, True)
@@ -450,8 +475,19 @@ def b_on_state(t, m, report):
         report('HARNESS-NOTE-content-left-class', 'state left its content class')
 
 
+def b_on_transition(tr, report):
+    """a read-only accessor / export must not change what the table holds"""
+    if tr.op[0] in READS and not tr.raised and O.content(tr.recv) != tr.before:
+        after = O.content(tr.recv)
+        what = [n for n, a, b in zip(('observation ids', 'sample ids', 'values', 'observation metadata',
+                                       'sample metadata', 'type'), after, tr.before) if a != b]
+        report('read-accessor-changed-content:' + tr.op[0], 'calling %s changed the table\'s %s'
+               % (E.opname(tr.op), ', '.join(what)))
+
+
 def b_spec(depth=40):
-    return E.Spec(b_starts(), PRESERVING, depth, check_ops=(), apply=b_apply, label='content-preserving')
+    return E.Spec(b_starts(), PRESERVING, depth, check_ops=(), apply=b_apply, on_transition=b_on_transition,
+                  want_before=True, label='content-preserving')
 
 
 _B_STATES = None
